@@ -33,8 +33,29 @@ func hashPoint(msg []byte, h hash.Hasher) []byte {
 	return s
 }
 
-// randScalar returns a scalar in [1, r-1].
+// randScalar returns a scalar in [1, r-1]; one in ten is structured: 64-bit limbs of all ones or all zeros
+// (carry boundaries of multi-limb arithmetic), the rest uniform.
 func (c *Ctx) randScalar() *big.Int {
+	if c.intn(10) == 0 {
+		k := new(big.Int)
+		for limb := 0; limb < 4; limb++ {
+			k.Lsh(k, 64)
+			switch c.intn(4) {
+			case 0:
+				k.Or(k, new(big.Int).SetUint64(^uint64(0)))
+			case 1:
+				// zero limb
+			case 2:
+				k.Or(k, new(big.Int).SetUint64(uint64(1)<<uint(c.intn(64))))
+			default:
+				k.Or(k, new(big.Int).SetUint64(c.rng.Uint64()))
+			}
+		}
+		k.Mod(k, blsR)
+		if k.Sign() != 0 {
+			return k
+		}
+	}
 	for {
 		k := new(big.Int).SetBytes(c.bytes(32))
 		k.Mod(k, blsR)
